@@ -149,4 +149,7 @@ def obligations(tier, rng):
             for sched in schedules([n]):
                 out.append(ob('C05', 'chunk', 'F2/%s/n=%d/%s' % (text(f), n, _sname(sched)), f=f, ns=[n], sched=sched,
                               oracle='offline', max_paths=20000, wall=900))
-    return out
+    res_ = out
+    from .. import core as _core
+    res_ = res_ + _core.make_twins(res_, [('F1/once[0,1](x)/n=3/0;1;2', 'ctwindow'), ('F1/(x) and (y)/n=[2, 2]/0,1|0,1', 'ctminmax'), ('F1/historically(x)/n=3/0,1;2', 'ctminmax')]) + _core.make_forkmode(res_, [])
+    return res_
